@@ -201,23 +201,27 @@ Definition xstep_monitor (o : xop) : N :=
       else if (mode =? 3) && (e =? ECorruptValue) && k4_signature req stream then 4
       else 1
     | Ok _ =>
-      match before with
-      | [] =>
-        (* accepted into an empty store: exactly the entries of the stream (tokens cleared in mode 3) *)
-        match verify_meta_checksum crc stream with
-        | Ok p => match dec_meta_payload p with
-                  | Some (s, []) =>
+      (* accepted: sealed, completely framed, addressed to exactly the requested hash slots,
+         every key inside them (c11_meta_accepts_only_framed) *)
+      match verify_meta_checksum crc stream with
+      | Ok p => match dec_meta_payload p with
+                | Some (s, []) =>
+                  if negb (list_eqb N.eqb (rm_slots s) (normalize_slots req)
+                           && forallb (fun e => in_slots (normalize_slots req) (fst e)) (rm_entries s)) then 1
+                  else match before with
+                  | [] =>
+                    (* into an empty store: exactly the entries of the stream (tokens cleared in mode 3) *)
                     let want := fold_left (fun d e =>
                                   match (if mode =? 3 then invalidate_token (rm_slots s) (fst e) (snd e) else Ok (snd e)) with
                                   | Ok v => mdb_set (fst e) v d
                                   | Err _ => d
                                   end) (rm_entries s) [] in
                     if mdb_eqb after want then 0 else 1
-                  | _ => 1
+                  | _ => 0
                   end
-        | Err _ => 1
-        end
-      | _ => 0
+                | _ => 1
+                end
+      | Err _ => 1
       end
     end
   | XReexport stream import_ok fresh mode r =>
